@@ -62,8 +62,8 @@ GARNISH = {
 
 
 def gen_world(rng: Rng) -> dict:
-    enc_cfg = rng.choice(["autodetect", "autodetect", "utf-8", "utf-8", "utf-8-sig", "cp1252", "latin-1", "ascii", "utf-16"])
-    file_enc = {"autodetect": rng.choice(["utf-8", "utf-8", "utf-8-sig", "cp1252", "utf-16"])}.get(enc_cfg, enc_cfg)
+    enc_cfg = rng.choice(["autodetect", "autodetect", "autodetect", "utf-8", "utf-8", "utf-8-sig", "cp1252", "latin-1", "ascii", "utf-16"])
+    file_enc = {"autodetect": rng.choice(["utf-8", "utf-8", "utf-8-sig", "cp1252", "cp1252", "utf-16"])}.get(enc_cfg, enc_cfg)
     files: dict[str, dict] = {}
     meta: dict[str, dict] = {}
     n = rng.randint(1, 4)
@@ -297,7 +297,7 @@ def run_one(ctx: Any, seed: int, tier: str, replay: Optional[dict] = None) -> di
         }
         # read-side faults on ONE file: its n-th open fails once (the first open is the encoding sniff,
         # the second the real read), or every raw read of it comes back short
-        if r.chance(0.2):
+        if r.chance(0.25):
             victim = r.choice(sorted(world["meta"]))
             if r.chance(0.6):
                 sc["read_fault"] = {"cls": "open_r", "path": os.path.basename(victim), "nth": r.choice([0, 0, 1]), "kind": "err", "errno": r.choice(["EIO", "EACCES", "EMFILE"])}
